@@ -403,7 +403,14 @@ class PB:
         self.counter[0] += 1
         return f"{self.prefix}{self.counter[0]}"
 
+    MAX_NUMEL = 2048
+
     def emit(self, op, args, dt, shape, kw=None, bodies=None):
+        if shape is None:
+            return None
+        conc = [d if isinstance(d, int) else 7 for d in shape]
+        if numel(conc) > self.MAX_NUMEL or len(shape) > 5:
+            return None  # keep generated tensors small (tile/pad/stack chains grow geometrically)
         o = self.fresh()
         s = {"o": o, "op": op, "a": list(args)}
         if kw:
